@@ -5,6 +5,8 @@ From GS Require Import Num EventLoop Kernel Sim.
 From GS Require Import NumZ Sim ExampleKit.
 From GS.Proofs Require Import Aux SimP SimP3 TraceSpec TimerSpec.
 From GS.Proofs Require Import MoveSpec SchedSpec.
+From Coq Require Import Permutation.
+From GS.Proofs Require Import KernelP DeliverOnce.
 
 Section C08.
 Context {F : Type} (A : ArithOps F) {PS : Type} (cfg : scfg F)
@@ -118,6 +120,18 @@ Theorem C08_whole_run_scheduling_justified (c : kcfg F) fuel ps0 :
   after (x_next A cfg) (x0 A cfg) (i0 ++ items) = x_abs (el_now (k_el s')) (k_h s').
 Proof. exact (whole_run_scheduled A cfg react c fuel ps0). Qed.
 
+(** DELIVERED EXACTLY ONCE.  For a run from build() that leaves no delivery in the queue (for instance one that ran
+    to exhaustion), the packet callbacks of the run are, as a multiset, exactly the delivery events the run
+    scheduled for existing nodes: each on its addressee [d], with its payload [m], at the time its provider reports
+    for the event's due time -- none missing, none twice, none invented.  ([cb_of_key (ts, EvDeliver s d m)] is
+    [(d, pnow ts, m)]; which deliveries get scheduled is C08_whole_run_scheduling_justified.) *)
+Theorem C08_delivered_exactly_once (OL : OrderLaws A) (c : kcfg F) fuel ps0 :
+  let '(s0, i0) := sim_start A cfg ps0 in
+  let '(s', items, fin) := k_run A (sim_hooks A cfg react) c fuel s0 in
+  flat_map (cb_of_key A cfg) (map key (el_q (k_el s'))) = [] ->
+  Permutation (flat_map (cb_of_key A cfg) (scheds items)) (packet_cbs items).
+Proof. exact (delivered_exactly_once A OL cfg react c fuel ps0). Qed.
+
 End C08.
 
 (** Non-vacuity: three nodes in range, delay 2: a unicast reaches only its addressee, a broadcast every
@@ -144,3 +158,4 @@ Print Assumptions C08_only_sender_creates_deliveries.
 Print Assumptions C08_packet_callback_only_from_delivery_event.
 Print Assumptions C08_delivery_event_calls_back.
 Print Assumptions C08_whole_run_scheduling_justified.
+Print Assumptions C08_delivered_exactly_once.
